@@ -446,7 +446,10 @@ def main():
         if ml != impl:
             R.disagree(case_of(o), ml[:3000], impl[:3000], 'point')
         R.d['traces_validated_against_impl'] += 1
-        R.case(impl, o.get('neq', 0) >= 3,
+        # fingerprint: the outcome without the option labels
+        fp = impl.split('|', 1)[1] if impl.startswith('labels:') else \
+            impl + str(case_of(o)['labels'])
+        R.case(fp, o.get('neq', 0) >= 3,
                {'case': case_of(o), 'impl': impl[:600], 'model': ml[:600]}
                if nsample < 3 and 'line' in o else None)
         if 'line' in o:
@@ -454,7 +457,8 @@ def main():
 
     # property oracle on every examined point
     nfail = 0
-    for o in results:
+    per_key = {}
+    for o in sorted(results, key=lambda o: (o['scheme'], o['index'])):
         R.count('scheme:' + o['scheme'])
         if 'harness_error' in o:
             raise SystemExit('harness error on %s #%d: %s'
@@ -471,16 +475,21 @@ def main():
                             'combination', 'raised %s: %s' % tuple(o['raised']))
             continue
         R.count('accepted' if o['accepted'] else 'REJECTED-by-real-checker')
-        R.count('codegen' if o.get('fail') is None and False else 'checked')
         if not o['accepted'] or not o['complete']:
             nfail += 1
+            k = key_of(o['scheme'], o['missing'], o['fail'])
+            per_key[k] = per_key.get(k, 0) + 1
+            if per_key[k] > 8:      # keep room for every class of failure
+                continue
             R.prop_fail(
-                key_of(o['scheme'], o['missing'], o['fail']),
+                k,
                 dict(case_of(o), mode='check'),
                 'every equation and stepper references only properties the '
                 'arrays have after setup_properties; AccelerationEval / '
                 'SPHCompiler set-up and code generation succeed',
                 'missing %s; real checker: %s' % (o['missing'], o['fail']))
+    for k, n in sorted(per_key.items()):
+        R.note('%d grid points fail with key %s' % (n, k))
     R.count('codegen-points', sum(1 for j in jobs if j[2]))
     R.count('compared-points', len(cmp_res))
 
